@@ -186,6 +186,9 @@ const (
 	nSel
 	nBadAssign
 	nThis
+	nSub
+	nMul
+	nNeg
 )
 
 type MNode struct {
@@ -256,6 +259,18 @@ func (n *MNode) text(cx int) string {
 			return "(" + s + ")"
 		}
 		return s
+	case nSub, nMul:
+		op := " - "
+		if n.Op == nMul {
+			op = " * "
+		}
+		s := n.Kids[0].text(cxPrimary) + op + n.Kids[1].text(cxPrimary)
+		if cx > cxBinary {
+			return "(" + s + ")"
+		}
+		return s
+	case nNeg:
+		return "-" + n.Kids[0].text(cxPrimary)
 	case nEq3:
 		s := n.Kids[0].text(cxPrimary) + " === " + n.Kids[1].text(cxPrimary)
 		if cx > cxBinary {
@@ -414,7 +429,7 @@ func (e *mEnv) eval(n *MNode) (MV, error) {
 			return e.eval(n.Kids[1])
 		}
 		return e.eval(n.Kids[2])
-	case nAdd:
+	case nAdd, nSub, nMul:
 		a, err := e.eval(n.Kids[0])
 		if err != nil {
 			return mNull(), err
@@ -426,7 +441,22 @@ func (e *mEnv) eval(n *MNode) (MV, error) {
 		if a.K != mkNum || b.K != mkNum {
 			return mNull(), errModelType
 		}
+		switch n.Op {
+		case nSub:
+			return mNum(a.N - b.N), nil
+		case nMul:
+			return mNum(a.N * b.N), nil
+		}
 		return mNum(a.N + b.N), nil
+	case nNeg:
+		a, err := e.eval(n.Kids[0])
+		if err != nil {
+			return mNull(), err
+		}
+		if a.K != mkNum {
+			return mNull(), errModelType
+		}
+		return mNum(-a.N), nil
 	case nEq3:
 		a, err := e.eval(n.Kids[0])
 		if err != nil {
